@@ -177,3 +177,106 @@ Proof.
   apply cell_at_perm; [apply map_cells_nodup; exact MI|].
   apply Permutation_flat_map. exact (i2_perm _ _ _ HI).
 Qed.
+
+(* ---------- with debug symbols ---------- *)
+From Proofs Require Import AsmDebug.
+
+Lemma image_blocks o o' : o_blocks o = o_blocks o' -> forall a, image o a = image o' a.
+Proof. intros E a. unfold image, addr_iter. rewrite E. reflexivity. Qed.
+
+Theorem image_debug text p : wf p = true -> typed p = true -> assemble true (Some text) p <> APanic ->
+  exists o, assemble true (Some text) p = AOk o /\ forall a, image o a = spec_image p a.
+Proof.
+  intros W T NP. destruct (image_plain p W T) as [o0 [E0 I0]].
+  pose proof (assemble_dbg text p) as D. rewrite E0 in D. destruct D as [D|[o1 [E1 B]]]; [contradiction|].
+  exists o1. split; [exact E1|]. intros a. rewrite (image_blocks o1 o0 B). apply I0.
+Qed.
+
+Theorem accepts_iff_debug text p : typed p = true -> assemble true (Some text) p <> APanic ->
+  ((exists o, assemble true (Some text) p = AOk o) <-> wf p = true).
+Proof.
+  intros T NP. pose proof (assemble_dbg text p) as D. pose proof (assemble_plain_spec p T) as S. split.
+  - intros [o E]. destruct (assemble false None p) as [o0|k sp|].
+    + exact (proj1 S).
+    + destruct D as [D|D]; congruence.
+    + contradiction.
+  - intros W. destruct (image_debug text p W T NP) as [o [E _]]. exists o. exact E.
+Qed.
+Theorem error_names_violation_debug text p k sp : typed p = true ->
+  assemble true (Some text) p = AErr k sp -> violated p k = true.
+Proof.
+  intros T E. pose proof (assemble_dbg text p) as D. pose proof (assemble_plain_spec p T) as S.
+  destruct (assemble false None p) as [o0|k0 sp0|].
+  - destruct D as [D|[o1 [D _]]]; congruence.
+  - destruct D as [D|D]; [congruence|]. rewrite D in E. injection E as <- <-. exact S.
+  - contradiction.
+Qed.
+Theorem debug_irrelevant text p :
+  (forall o1, assemble true (Some text) p = AOk o1 ->
+     exists o0, assemble false None p = AOk o0 /\ o_blocks o1 = o_blocks o0 /\ forall a, image o1 a = image o0 a)
+  /\ (forall k sp, assemble true (Some text) p = AErr k sp -> assemble false None p = AErr k sp).
+Proof.
+  pose proof (assemble_dbg text p) as D. split.
+  - intros o1 E. destruct (assemble false None p) as [o0|k sp|].
+    + destruct D as [D|[o1' [D B]]]; [congruence|]. rewrite D in E. injection E as <-. exists o0. split; [reflexivity|]. split; [exact B|].
+      apply image_blocks. exact B.
+    + destruct D as [D|D]; congruence.
+    + congruence.
+  - intros k sp E. destruct (assemble false None p) as [o0|k0 sp0|].
+    + destruct D as [D|[o1 [D _]]]; congruence.
+    + destruct D as [D|D]; congruence.
+    + congruence.
+Qed.
+
+(* ---------- labels ---------- *)
+Theorem labels_spec src p sym : typed p = true -> pass1 p src = AOk sym ->
+  forall name, assoc (upper name) (st_labels sym) = option_map sym_of (spec_label p name).
+Proof.
+  intros T E name. pose proof (pass1_nodebug p T) as P.
+  assert (G : forall sym0, pass1 p None = AOk sym0 -> st_labels sym0 = st_labels sym ->
+                 assoc (upper name) (st_labels sym) = option_map sym_of (spec_label p name)).
+  { intros sym0 E0 EL. rewrite E0 in P. destruct P as [OK _]. rewrite <- EL. apply rep_lookup. exact (ok_rep _ _ OK). }
+  destruct src as [text|].
+  - pose proof (pass1_dbg text p) as D. destruct (pass1 p None) as [sym0|k sp|].
+    + destruct D as [D|[m D]]; [congruence|]. rewrite D in E. injection E as <-. apply (G sym0 eq_refl). reflexivity.
+    + destruct D as [D|D]; congruence.
+    + congruence.
+  - apply (G sym E). reflexivity.
+Qed.
+
+(* ---------- PC-relative operands ---------- *)
+Lemma field_value_sound n t a f : n = 9 \/ n = 11 -> field_value n t a = Some f ->
+  - 2 ^ (n - 1) <= f < 2 ^ (n - 1) /\ (a + 1 + f) mod 65536 = t mod 65536.
+Proof.
+  intros Hn. unfold field_value. set (d := (t - (a + 1)) mod 65536).
+  assert (Hd : 0 <= d < 65536) by (unfold d; lia).
+  assert (Hc : (a + 1 + d) mod 65536 = t mod 65536).
+  { unfold d. rewrite Zplus_mod_idemp_r. f_equal. lia. }
+  destruct Hn as [-> | ->]; [change (2 ^ (9 - 1)) with 256 | change (2 ^ (11 - 1)) with 1024];
+  repeat match goal with |- context [if ?c then _ else _] => destruct c eqn:? end; intros E; try discriminate E; injection E as <-;
+  (split; [lia|]); try exact Hc; rewrite <- Hc; replace (a + 1 + (d - 65536)) with (a + 1 + d + (-1) * 65536) by lia; apply Z_mod_plus_full.
+Qed.
+
+Theorem offset_spec p c s n l : wf p = true -> In (c, s) (placed p) -> operand_of s = Some (n, l) -> 0 < n ->
+  exists o a b f, c = Some (o, a) /\ spec_label p (l_name l) = Some b /\ b_ext b = false /\
+    field_value n (b_addr b) a = Some f /\ - 2 ^ (n - 1) <= f < 2 ^ (n - 1) /\ (a + 1 + f) mod 65536 = b_addr b mod 65536.
+Proof.
+  intros W Hin EO Hn. unfold wf in W. repeat (apply andb_prop in W; destruct W as [W ?]).
+  repeat match goal with H : negb _ = true |- _ => apply negb_true_iff in H end.
+  assert (Hw : n = 9 \/ n = 11) by (destruct (operand_width s n l EO) as [E0|[E0|E0]]; [lia|auto|auto]).
+  match goal with H : v_undet_stmt p = false |- _ => pose proof (existsb_false_in _ _ _ H Hin) as K1 end.
+  match goal with H : v_not_found p = false |- _ => pose proof (existsb_false_in _ _ _ H Hin) as K2 end.
+  match goal with H : v_external p = false |- _ => pose proof (existsb_false_in _ _ _ H Hin) as K3 end.
+  cbn [fst snd] in K1, K2, K3. rewrite EO in K2, K3.
+  assert (NA : needs_addr s = true).
+  { unfold operand_of in EO. unfold needs_addr. destruct (s_nucleus s) as [i|[?|?|?|?| |?]]; try reflexivity; discriminate. }
+  rewrite NA, andb_true_r in K1. destruct c as [[o a]|]; [|discriminate K1].
+  unfold spec_label. destruct (lookup (l_name l) (bindings p)) as [b|] eqn:EL; [|discriminate K2].
+  assert (Hp : (0 <? n) = true) by lia. rewrite Hp in K3. cbn [andb] in K3.
+  assert (K4 : f_off n (bindings p) (Some (o, a), s) = false).
+  { destruct Hw as [E0 | E0]; subst n; match goal with H : v_offset ?m p = false |- f_off ?m _ _ = false => exact (existsb_false_in _ _ _ H Hin) end. }
+  unfold f_off in K4. cbn [fst snd] in K4. rewrite EO, EL, Hp, Z.eqb_refl, K3 in K4. cbn [andb negb] in K4.
+  destruct (field_value n (b_addr b) a) as [f|] eqn:F; [|discriminate K4].
+  destruct (field_value_sound n (b_addr b) a f Hw F) as [R1 R2].
+  exists o, a, b, f. repeat split; try assumption; lia.
+Qed.
